@@ -185,10 +185,11 @@ def c11_rest(ctx, facts, nr, memo):
     ok = shared.tls_const_false(ctx)
     ctx.ob("C11.4", "tls-branch-dead", "the branch of the connection task that waits for each answer (HTTPS only) cannot run: secure() is constantly false in this configuration", ok, "Server::from_listener",
            None if ok else str(getattr(facts, "_tls_why", None)))
-    tk = facts.find_fns(r"^Server::from_listener::\{closure#0\}::\{closure#0\}$")[0]
+    import server_rules as S
+    tk = S.smodel(facts).tk
     recvs = [bb for bb, t in tk.calls() if call_is(t, RECV)]
     for bb in recvs:
-        ctx.ob("C11.4", "%s|wait-only-on-tls-branch" % tk.id, "the only wait in the connection task sits on that dead branch", shared.tls_branch_dead(ctx, tk, bb), tk.loc(bb))
+        ctx.ob("C11.4", "connection-task|wait-only-on-tls-branch", "the only wait in the connection task sits on that dead branch", shared.tls_branch_dead(ctx, tk, bb), tk.loc(bb))
     # ---- C11.5 a read-ahead request reaches a waiting application thread at once: every push is followed by a wake-up
     # on every path (a conditional wake-up leaves later pipelined requests in the queue until an earlier one is answered
     # and its thread comes back to recv)
